@@ -26,7 +26,10 @@ SharedTexts == <<
      Tk("Id", "roundBank"), OpK("("), Tk("Id", "b"), OpK(")") >>,
   \* two formulas with exactly one referenced field each
   << Tk("Id", "round"), OpK("("), Tk("Id", "a"), OpK(")"), OpK("+"), Tk("Num", <<FALSE, <<1>>, 0>>) >>,
-  << Tk("Id", "lower"), OpK("("), Tk("Id", "s1"), OpK(")") >> >>
+  << Tk("Id", "lower"), OpK("("), Tk("Id", "s1"), OpK(")") >>,
+  \* $c = ($c ?? 0) + 1, $c   evaluated by runners that were never given a data map (data index 0): each its own locals
+  << Tk("Id", "$c"), OpK("="), OpK("("), Tk("Id", "$c"), OpK("??"), Tk("Num", <<FALSE, <<>>, 0>>), OpK(")"), OpK("+"), Tk("Num", <<FALSE, <<1>>, 0>>),
+     OpK(","), Tk("Id", "$c") >> >>
 Datas == << [a |-> <<"int", 1>>, b |-> <<"int", 2>>],
             [a |-> <<"dec", FALSE, <<1>>, 1>>, b |-> <<"f64", FALSE, <<5>>, -1>>],
             [a |-> <<"int64", FALSE, <<9,0,0,7,1,9,9,2,5,4,7,4,0,9,9,3>>>>, b |-> <<"int", -3>>],
@@ -37,7 +40,8 @@ Datas == << [a |-> <<"int", 1>>, b |-> <<"int", 2>>],
 \* texts (bytes) that other goroutines parse meanwhile: escapes, long literals, a rejected one
 ParseTexts == << <<39,92,117,52,70,49,49,92,117,52,70,51,52,39,43,39,92,120,52,49,39>>,      \* '\u4F11\u4F34'+'\x41'
                  <<39,92,117,48,48,52,49,92,120,54,50,92,117,52,101,50,100,39>>,            \* '\u0041\x62\u4e2d'
-                 <<49,32,43,10,32,40,50,32,42>> >>                                          \* 1 +\n (2 *
+                 <<49,32,43,10,32,40,50,32,42>>,                                            \* 1 +\n (2 *
+                 <<49,101,49,95,48,32,43,32,50,46,53,101,45,51>> >>                                  \* 1e1_0 + 2.5e-3  (the same byte buffer is handed to every goroutine)
 \* a workload is <<"eval", text index, data index>> | <<"fields", text index>>
 SharedTree(i) == ParseTokens(SharedTexts[i])[2]
 \* <<"evaldeep", i, j, d>>: formula i wrapped in d pairs of parentheses (a parenthesised expression has the value
@@ -46,7 +50,7 @@ RECURSIVE Expected(_)
 Expected(w) ==
   IF w[1] = "evaldeep" THEN Expected(<<"eval", w[2], w[3]>>) ELSE
   IF w[1] = "eval" THEN
-     LET o == Outcome(SharedTree(w[2]), [this |-> NormMap(Datas[w[3]]), log |-> <<>>]) IN
+     LET o == Outcome(SharedTree(w[2]), [this |-> IF w[3] = 0 THEN <<>> ELSE NormMap(Datas[w[3]]), log |-> <<>>]) IN
      IF o[1] = "ok" THEN <<"ok", o[2], o[3].this>> ELSE IF o[1] = "err" THEN <<"err", o[2].this>> ELSE o
   ELSE IF w[1] = "parse" THEN
      LET lx == LexAll(ParseTexts[w[2]]) IN IF lx.st # "ok" THEN <<"REJECT">> ELSE ParseTokens(GToks(lx.toks))
